@@ -339,8 +339,8 @@ def run(run):
             run.known(e["what"])
 
     # ---- 1. generated calls of insert_tree ----
-    npairs = 420 if thorough else 112
-    per_shard = 6
+    npairs = 420 if thorough else 98
+    per_shard = 7   # 14 pairs per grammar -> 14 coqc processes (+7 for path_to_tree), run concurrently
     by_grammar = collections.defaultdict(list)   # gname -> list of pair records
     hist = collections.Counter()
     calls = 0
@@ -423,15 +423,14 @@ def run(run):
               "| _ => match r with Ok rs => forallb (fun t => negb (wf_treeb G t) && negb (insertedb G h i t) "
               "                                               && negb (inserted_lossyb G h i t)) rs | Raise _ => false end end")
     strict_fail, lossy_fail, model_diff, neg_accepted = [], [], [], []
-    try:
-        bad, dt = lib.coq_run_shards("c13a", "Insert", ok_def, shards)
-        run.cov["coq_seconds_insert_tree"] = round(dt, 1)
-        for (k, i) in bad:
-            mode, m, rec = smeta[k][i]
-            (strict_fail, lossy_fail, model_diff, neg_accepted)[mode].append((m, rec))
-    except RuntimeError as e:
-        run.violation({"kind": "correspondence-not-evaluable", "obligation": "Insert.v insert_tree cases",
-                       "error": str(e)[-2000:]}, found_input=False)
+    # the path_to_tree shards (section 3) are evaluated concurrently with these
+    import concurrent.futures as _cf
+    _pool = _cf.ThreadPoolExecutor(max_workers=1)
+    main_future = _pool.submit(lib.coq_run_shards, "c13a", "Insert", ok_def, shards)
+
+    def finish_main():
+        nonlocal_bad, dt = main_future.result()
+        return nonlocal_bad, dt
 
     # ---- 3. path_to_tree on every chain of paths_between ----
     pshards, pmeta = [], []
@@ -465,6 +464,17 @@ def run(run):
     except RuntimeError as e:
         run.violation({"kind": "correspondence-not-evaluable", "obligation": "Insert.v path_to_tree cases",
                        "error": str(e)[-2000:]}, found_input=False)
+
+    try:
+        bad, dt = finish_main()
+        run.cov["coq_seconds_insert_tree"] = round(dt, 1)
+        for (k, i) in bad:
+            mode, m, rec = smeta[k][i]
+            (strict_fail, lossy_fail, model_diff, neg_accepted)[mode].append((m, rec))
+    except RuntimeError as e:
+        run.violation({"kind": "correspondence-not-evaluable", "obligation": "Insert.v insert_tree cases",
+                       "error": str(e)[-2000:]}, found_input=False)
+    _pool.shutdown()
 
     # ---- 4. classify ----
     def witness(m, rec, extra=None):
